@@ -13,8 +13,12 @@ import (
 	"fmt"
 	"go/ast"
 	"go/token"
+	"regexp"
 	"strings"
 )
+
+// append([]byte{}, x...): a copy of x in storage of its own
+var freshCopy = regexp.MustCompile(`^append\(\[\]byte\{\},[A-Za-z_][A-Za-z0-9_]*\.\.\.\)$`)
 
 func genWorkers() {
 	ws := []struct{ name, file, fn, pool, size string }{
@@ -58,6 +62,7 @@ func genWorkers() {
 				return nil
 			}
 			mirrorBuf := map[string]bool{"mirror.body": true}
+			copies := map[string]bool{}
 			var walk func(root ast.Node, retIsContinue bool, depth int)
 			walk = func(root ast.Node, retIsContinue bool, depth int) {
 				ast.Inspect(root, func(n ast.Node) bool {
@@ -93,7 +98,8 @@ func genWorkers() {
 						ch := exprString(x.Chan)
 						switch {
 						case strings.HasSuffix(ch, "MQCh"):
-							if strings.Join(strings.Fields(exprString(x.Value)), "") == "append([]byte{},b...)" {
+							sent := strings.Join(strings.Fields(exprString(x.Value)), "")
+							if freshCopy.MatchString(sent) || copies[sent] {
 								evs = append(evs, "Publish:copy")
 							} else {
 								evs = append(evs, "Publish:other")
@@ -104,6 +110,12 @@ func genWorkers() {
 					case *ast.AssignStmt:
 						if len(x.Lhs) >= 1 && len(x.Rhs) == 1 {
 							lhs, rhs := exprString(x.Lhs[0]), strings.Join(strings.Fields(exprString(x.Rhs[0])), "")
+							// message := append([]byte{}, b...): a fresh copy held in a local
+							if freshCopy.MatchString(rhs) {
+								copies[lhs] = true
+							} else {
+								delete(copies, lhs)
+							}
 							if u, ok := x.Rhs[0].(*ast.UnaryExpr); ok && u.Op == token.ARROW && strings.HasSuffix(exprString(u.X), "UDPCh") {
 								evs = append(evs, "Recv")
 								return false
